@@ -433,6 +433,21 @@ theorem C11_codec_concrete :
 
 example : decode decU16 decVoid [] (encode encU16 encVoid (newSet [3, 1, 2])) = (newSet [3, 1, 2], some 10) := by decide
 
+/-- **Every element width, down to one byte per entry.**  Little-endian numbers of any width `w` (serix `uint8`,
+`int8`, `bool`: 1 … `uint64`: 8) are a codec on `[0, 256^w)`; with the zero-byte `types.Empty` value an encoded
+`Set[uint8]` spends a single byte per entry.  Hence `Decode(Encode(s))` gives back `s` — contents and order — for a
+set of every such element type and every size below 2³² (in particular sizes 1, 2, many; an entry is *not* at least
+two bytes long). -/
+theorem C11_codec_widths (w : Nat) (s : ASet) (hs : ∀ p ∈ s, p.1 < 256 ^ w ∧ p.2 = 0) (hn : (elems s).Nodup)
+    (hlen : s.length < 4294967296) (rest : Bytes) :
+    Codec (· < 256 ^ w) (encLE w) (decLE w) ∧
+    decode (decLE w) decVoid [] (encode (encLE w) encVoid s ++ rest) = (s, some (encode (encLE w) encVoid s).length) :=
+  ⟨codec_LE w, (C11_codec_roundtrip (codec_LE w) C11_codec_concrete.2.2 s [] hs hn hlen rest).2⟩
+
+example : (∀ p ∈ newSet [200, 7], p.1 < 256 ^ 1 ∧ p.2 = 0) ∧
+    encode (encLE 1) encVoid (newSet [200, 7]) = [2, 0, 0, 0, 200, 7] ∧
+    decode (decLE 1) decVoid [] [1, 0, 0, 0, 9] = (newSet [9], some 5) := by decide
+
 /-! ## weak iteration -/
 
 /-- **Weak iteration.** A `ForEach` (`fwd = true`) or `ForEachReverse` (`fwd = false`) on the map
